@@ -473,6 +473,11 @@ add("version_by_plain_split", (RD, 'molfile_version = lines[3].rstrip().split(" 
 add("v2000_index_validation_by_get", (V2, "    if index not in atom_attrs:\n        raise MolfileParserException(f'Unknown atom index {index + 1} in line \"{line}\"')",
     "    if atom_attrs.get(index) is None:\n        raise MolfileParserException(f'Unknown atom index {index + 1} in line \"{line}\"')"), silent=True)
 
+add("explored_reset_by_loop", (SER, "    nx.set_node_attributes(m, False, EXPLORED)\n\n    # outer loop", "    for node in m.nodes:\n        m.nodes[node][EXPLORED] = False\n\n    # outer loop"), silent=True)
+add("refinement_stops_when_not_finer", (CAN, "        if get_number_of_partitions(m_refined) == get_number_of_partitions(m):", "        if not get_number_of_partitions(m_refined) > get_number_of_partitions(m):"), silent=True,
+    note="refining never merges classes, so `not finer` is `equally fine`")
+add("canonical_labels_by_zip_range", (CAN, "    return {old: new for new, old in enumerate(old_labels_in_canonical_order)}", "    return dict(zip(old_labels_in_canonical_order, range(len(old_labels_in_canonical_order))))"), silent=True)
+
 # ---------------------------------------------------------------- spelling of the attribute names
 GA = "tucan/graph_attributes.py"
 add("attribute_names_respelled", [(GA, 'MASS = "mass"', 'MASS = "isotope_mass"'), (GA, 'CHG = "chg"', 'CHG = "formal_charge"'), (GA, 'BOND_TYPE = "bond_type"', 'BOND_TYPE = "order"'),
